@@ -89,12 +89,31 @@ pub struct PackageInterface {
     pub name: PackageName,
     pub exports: IndexMap<String, DefId>,
     pub enum_variants: IndexMap<String, Vec<String>>,
+    /// Trait bounds of generic functions and methods (`fn show[T: Show]`): function (methods:
+    /// `impl#<n>::name`) -> type parameter -> traits. They are part of what a dependent is
+    /// compiled against, so they belong to the interface (and to its hash).
+    #[serde(default, skip_serializing_if = "IndexMap::is_empty")]
+    pub fn_bounds: IndexMap<String, Vec<(String, Vec<String>)>>,
+}
+
+fn bounds_of(func: &Fn) -> Vec<(String, Vec<String>)> {
+    func.generic_bounds
+        .iter()
+        .map(|(param, traits)| {
+            (
+                param.to_ident_name(),
+                traits.iter().map(|t| t.display()).collect(),
+            )
+        })
+        .collect()
 }
 
 impl PackageInterface {
     pub fn from_hir(package: &PackageHir, table: &HirTable) -> Self {
         let mut exports = IndexMap::new();
         let mut enum_variants = IndexMap::new();
+        let mut fn_bounds = IndexMap::new();
+        let mut impl_count = 0usize;
 
         for &def_id in package.toplevels.iter() {
             match table.def(def_id) {
@@ -117,6 +136,9 @@ impl PackageInterface {
                 }
                 Def::Fn(func) => {
                     exports.insert(func.name.clone(), def_id);
+                    if !func.generic_bounds.is_empty() {
+                        fn_bounds.insert(func.name.clone(), bounds_of(func));
+                    }
                 }
                 Def::ExternGo(ext) => {
                     exports.insert(ext.goml_name.to_ident_name(), def_id);
@@ -127,7 +149,19 @@ impl PackageInterface {
                 Def::ExternBuiltin(ext) => {
                     exports.insert(ext.name.to_ident_name(), def_id);
                 }
-                Def::ImplBlock(_) => {}
+                Def::ImplBlock(block) => {
+                    for method in block.methods.iter() {
+                        if let Def::Fn(func) = table.def(*method)
+                            && !func.generic_bounds.is_empty()
+                        {
+                            fn_bounds.insert(
+                                format!("impl#{}::{}", impl_count, func.name),
+                                bounds_of(func),
+                            );
+                        }
+                    }
+                    impl_count += 1;
+                }
             }
         }
 
@@ -136,6 +170,7 @@ impl PackageInterface {
             name: package.name.clone(),
             exports,
             enum_variants,
+            fn_bounds,
         }
     }
 }
